@@ -209,8 +209,10 @@ def describe(r, profile):
         doc = "binary filter %s" % r["hex"]
     else:
         doc = bytes.fromhex(r["hex"]).decode("utf-8", "replace")
+    def vis(t):     # one line, control characters visible
+        return t.replace("\\", "\\\\").replace("\n", "\\n").replace("\r", "\\r").replace("\t", "\\t")
     return "C07 %s [%s profile] on %s : %s (expectation %s, from_json outcome %s)" % (
-        r["kind"], profile, doc[:300], r["detail"], r["expect"], r.get("outcome", "?"))
+        r["kind"], profile, vis(doc[:300]), vis(r["detail"]), r["expect"], vis(r.get("outcome", "?")))
 
 
 def replay_dict(r, profile):
@@ -232,15 +234,31 @@ def report(V, prop, records):
             order.append(key)
         if len(by_key[key]) < 2:
             by_key[key].append((r, profile))
-    # round-robin over failure kinds so that the first ten cover as many kinds as possible
-    kinds = {}
-    for key in order:
-        kinds.setdefault(key.split(":")[1], []).append(key)
-    seq = []
-    while any(kinds.values()):
-        for k in list(kinds):
-            if kinds[k]:
-                seq.append(kinds[k].pop(0))
+    # order: first one key per input category (letters / unknown members / tag values / integers / ...),
+    # then one per (category, failure kind), then the rest - so that the (at most 10) replay files
+    # written by Verdict.finish cover distinct defects
+    def category(key):
+        cls = key.split(":", 2)[2]
+        for pre, cat in (("tag_letter", "letters"), ("unknown_member", "unknown"), ("tag_value", "tagvalue"), ("hand_built", "tagvalue"),
+                         ("limit=", "limit"), ("since=", "time"), ("until=", "time"), ("kinds=", "kinds"), ("whitespace", "ws")):
+            if cls.startswith(pre):
+                return cat
+        return "other"
+    prio = ["rejected", "wrapped", "as_json_invalid", "panic", "mismatch", "order_dependent", "roundtrip_bytes"]
+    ranked = sorted(order, key=lambda k: (prio.index(k.split(":")[1]) if k.split(":")[1] in prio else len(prio)))
+    seq, seen_cat, seen_ck = [], set(), set()
+    for key in ranked:
+        if category(key) not in seen_cat:
+            seen_cat.add(category(key))
+            seen_ck.add((category(key), key.split(":")[1]))
+            seq.append(key)
+    for key in ranked:
+        ck = (category(key), key.split(":")[1])
+        if ck not in seen_ck:
+            seen_ck.add(ck)
+            seq.append(key)
+    chosen = set(seq)
+    seq += [k for k in order if k not in chosen]
     n = 0
     for key in seq:
         r, profile = by_key[key][0]
@@ -308,6 +326,13 @@ def run(prop, tier, seed, replay=None):
     def total(sums, k):
         return sum(s[k] for s in sums)
 
+    def merge_counts(sums):     # "family:failure kind:field" -> number of failure records (the driver writes out at most 250 of each)
+        out = {}
+        for s_ in sums:
+            for k, n in s_.get("failure_counts", {}).items():
+                out[k] = out.get(k, 0) + n
+        return out
+
     fam_stats = {}
     for s in rel_sum:
         for f, st in s["by_family"].items():
@@ -333,7 +358,8 @@ def run(prop, tier, seed, replay=None):
         documents_release=total(rel_sum, "executed"), documents_dev=total(dev_sum, "executed"),
         distinct_documents=total(rel_sum, "distinct"),
         by_expectation=expects, by_family=fam_stats,
-        failing_documents=len({r["hex"] for r, _ in records}), failure_records=len(records), distinct_violation_keys=nkeys,
+        failing_documents=total(rel_sum, "failing_documents"), failure_records=total(rel_sum, "failures") + total(dev_sum, "failures"),
+        failure_counts_release=merge_counts(rel_sum), distinct_violation_keys_reported=nkeys,
         model=dict(module=MODULE, cfg=CFG, invariants=["TypeOK", "OrderIndependent", "WsIndependent", "UnknownIndependent",
                                                        "AcceptIsExact", "Defaults"], action_properties=["MeaningPreserved"],
                    sample_modulus=MOD[tier], shards=[dict(families=i["families"], states=i["states"], transitions=i["transitions"],
@@ -348,6 +374,12 @@ def run(prop, tier, seed, replay=None):
                      "surrogate-pair escapes are outside the property's domain (expectation 'may': executed, not judged)",
                      "hand-built filters use valid UTF-8 tag values, one-letter tag names, no duplicate letters"]
     V.notes = dict(wall_total_s=round(time.time() - t_start, 1))
+    if not os.environ.get("VERIF_KEEP"):
+        for f in case_files:        # the raw TLC output is large (thorough: ~350 MB); the result files stay
+            try:
+                os.remove(f)
+            except OSError:
+                pass
     return V.finish()
 
 
